@@ -439,21 +439,53 @@ func init() {
 						r.Bad("imports/key-is-variable", qi.Decl.Pos(), "import table key is not a variable")
 						continue
 					}
-					stripped := false
-					for _, d := range qi.defs[v] {
-						if d.kind == "assign" {
-							if se, ok := ast.Unparen(d.rhs).(*ast.SliceExpr); ok && qi.varOf(se.X) != nil && qi.isParam(qi.varOf(se.X)) {
-								for _, g := range qi.Guards(d.node) {
-									if be, ok := ast.Unparen(g.Expr).(*ast.BinaryExpr); ok && !g.Neg && be.Op == token.NEQ {
-										if d2 := qi.defOf(be.X); d2 != nil && qi.isCall(d2.rhs, "strings.LastIndex") != nil {
-											stripped = true
-										}
-									}
-								}
-							}
+					// the key is computed from the path parameter: every source is either the path itself or the
+					// path sliced after the LAST occurrence of "vendor/"
+					var pathParam *types.Var
+					for _, f := range qi.Decl.Type.Params.List {
+						for _, nm := range f.Names {
+							pathParam = qi.Info.Defs[nm].(*types.Var) // the last parameter is the path
 						}
 					}
-					r.Check(stripped, "imports/key-unvendored", qi.Decl.Pos(), "the key is the path with everything up to the last vendor/ component removed")
+					var kid *ast.Ident
+					ast.Inspect(qi.Decl.Body, func(nd ast.Node) bool {
+						if id, ok := nd.(*ast.Ident); ok && qi.Info.Uses[id] == v && kid == nil {
+							kid = id
+						}
+						return true
+					})
+					stripped, other := false, 0
+					if kid != nil {
+						for _, src := range qi.valueSources(kid) {
+							f := src.fi
+							if pv := f.varOf(f.deref(src.expr)); pv == pathParam || f.varOf(src.expr) == pathParam {
+								continue
+							}
+							se, ok := ast.Unparen(src.expr).(*ast.SliceExpr)
+							if ok && se.High == nil && f.varOf(f.deref(se.X)) == pathParam || ok && se.High == nil && f.varOf(se.X) == pathParam {
+								// Low = i + len("vendor/") with i := strings.LastIndex(path, "vendor/")
+								usesLast := false
+								ast.Inspect(se.Low, func(nd ast.Node) bool {
+									if id, ok := nd.(*ast.Ident); ok {
+										if iv, ok := f.Info.Uses[id].(*types.Var); ok {
+											for _, d := range f.defs[iv] {
+												if d.rhs != nil && f.isCall(d.rhs, "strings.LastIndex") != nil {
+													usesLast = true
+												}
+											}
+										}
+									}
+									return true
+								})
+								if usesLast {
+									stripped = true
+									continue
+								}
+							}
+							other++
+						}
+					}
+					r.Check(stripped && other == 0, "imports/key-unvendored", qi.Decl.Pos(), "the key is the path, with everything up to the last vendor/ component removed when present (%d unrecognised sources)", other)
 					r.Check(keys[v] >= 2, "imports/read-and-written", qi.Decl.Pos(), "the table is both read and written under that key (%d accesses)", keys[v])
 				}
 			}
